@@ -489,6 +489,41 @@ def check_weyl_faces(ctx, cirq):
                                            dict(rep, impl_out=[repr(np.round(got, 7).tolist())], spec_out=['the input up to phase']))
 
 
+def check_cphase_to_fsim(ctx, cirq):
+    """decompose_cphase_into_two_fsim: for every exponent in the intervals compute_cphase_exponents_for_fsim_decomposition reports (and
+    its images under the period 2), with or without a global shift, the operations multiply to the matrix of the given gate — global
+    phase included, as documented — and contain exactly two copies of the FSim gate"""
+    import cirq_google
+
+    rng = ctx.substream('cphase-fsim')
+    q0, q1 = cirq.LineQubit.range(2)
+    fsims = [cirq.FSimGate(theta=np.pi / 2, phi=np.pi / 6), cirq.FSimGate(theta=1.3, phi=0.4), cirq_google.SYC, cirq.FSimGate(theta=0.3, phi=2.0), cirq.FSimGate(theta=-np.pi / 2, phi=-0.3), cirq.FSimGate(theta=2.8, phi=1.0)]
+    for fs in fsims:
+        intervals = cirq.compute_cphase_exponents_for_fsim_decomposition(fs)
+        for lo, hi in intervals:
+            for it in range(4 if ctx.tier == 'quick' else 30):
+                e = rng.uniform(lo, hi) if it > 1 else (lo + (hi - lo) * (0.001 if it == 0 else 0.999))
+                e += rng.choice([0, 0, 2, -2, 4])
+                sh = rng.choice([0, 0, 0.25, -0.5, 1, 0.3])
+                g = cirq.CZPowGate(exponent=e, global_shift=sh)
+                ctx.count('check', 'cphase-to-two-fsim')
+                ctx.case(['cphase-fsim', repr(fs), round(e, 6), sh], True)
+                rep = {'lines': [{'fsim': repr(fs), 'cphase': repr(g)}], 'theorem_or_correspondence': 'operation product = input (exact)'}
+                try:
+                    ops_ = list(cirq.decompose_cphase_into_two_fsim(g, fsim_gate=fs, qubits=(q0, q1)))
+                except ValueError as ex:
+                    ctx.report_witness('synth:cphase-fsim:rejected', f'decompose_cphase_into_two_fsim rejects an exponent inside the interval it reports as feasible: {str(ex)[:100]}', dict(rep, impl_out=[str(ex)[:200]], spec_out=['two FSim gates']))
+                    continue
+                got = cirq.Circuit(ops_).unitary(qubit_order=[q0, q1], qubits_that_should_be_present=[q0, q1])
+                want = cirq.unitary(g)
+                n2 = sum(1 for o in ops_ if len(o.qubits) == 2)
+                foreign = [o for o in ops_ if len(o.qubits) == 2 and o.gate != fs]
+                if not np.allclose(got, want, atol=1e-6) or n2 != 2 or foreign:
+                    sig = 'synth:cphase-fsim' + (':global-shift' if sh != 0 and phase_close(got, want, 1e-6) else '')
+                    ctx.report_witness(sig, 'decompose_cphase_into_two_fsim: the operations do not multiply to the matrix of the given CZPowGate (global phase included), or not exactly two FSim gates',
+                                       dict(rep, impl_out=[repr(np.round(got, 7).tolist()), n2], spec_out=[repr(np.round(want, 7).tolist()), 2]))
+
+
 def check_synthesis(ctx, cirq, n):
     import cirq_google
 
@@ -670,6 +705,7 @@ def run(ctx: common.Run):
     check_cnot_counts_and_tabulation(ctx, cirq, max(24, n // 2))
     check_synthesis(ctx, cirq, n)
     check_weyl_faces(ctx, cirq)
+    check_cphase_to_fsim(ctx, cirq)
     check_multi_controlled(ctx, cirq)
     check_known_gate_tables(ctx, cirq)
 
